@@ -5,5 +5,5 @@ From Grog Require Import Str Label HashKey.
 Extraction Language OCaml.
 Extraction "model.ml" Label.parse_label Label.print_label Label.parse_pattern
   Label.print_pattern Label.matches Label.parse_patterns_or_all Label.matches_any
-  HashKey.comps HashKey.encode_def HashKey.encode_files HashKey.no_inputs HashKey.wf_state
+  HashKey.encode_def HashKey.encode_files HashKey.no_inputs
   HashKey.output_hash HashKey.nocache_output_hash.
